@@ -1,5 +1,6 @@
 import Driver.Util
 import Driver.BPE
+import Driver.Sparse
 /-
   Line protocol: one JSON object per input line, {"op": "<name>", ...}; one JSON object per
   output line. Unknown ops and malformed requests answer {"bad": "<reason>"} — the model never
@@ -9,7 +10,8 @@ open Lean
 namespace Driver
 
 def handlers : List (String → Json → Option (R Json)) := [
-  Driver.BPE.handle
+  Driver.BPE.handle,
+  Driver.Sparse.handle
 ]
 
 def dispatch (j : Json) : Json :=
